@@ -17,8 +17,9 @@ META = {
     "explanation": "Representation can depend on the construction route only if some route bypasses the type's single builder. The check "
                    "enumerates every aggregate of the three vector types in the crate (must be the builder/From/load functions), shows each "
                    "From conversion is a single delegating call, and that copy_bit_vec feeds exactly source.one_iter() positions into the "
-                   "target builder created from source.len()/count_ones(). Determinism of the builders themselves (merging, bucket maths) "
-                   "is arithmetic and not decided.",
+                   "target builder created from source.len()/count_ones(). R4: From<RawVector> counts set bits by whole-word popcount, so every RawVector "
+                   "operation that shrinks or rebuilds the vector must clear the tail of the last word on all paths (the C05.R1 rule). "
+                   "Determinism of the builders themselves (merging, bucket maths) is arithmetic and not decided.",
     "trusted_base": ["rustc's MIR faithfully represents the source"],
     "assumptions": ["one_iter() of a well-formed source yields its set positions in increasing order"],
 }
@@ -45,6 +46,10 @@ def check(ctx):
 
 
 def check_config(ctx, F, tag):
+    # ---------------- R4: From<RawVector> for BitVector counts set bits with a popcount over whole words, so the conversion is
+    # canonical (equal to what the bit-at-a-time route builds) only while the bits past `len` in the last word are zero
+    import c05
+    c05.check_tail_invariant(ctx, F, tag, prefix="C11.R4.unused-bits-zero")
     # ---------------- R1
     n = 0
     for im in F.impls_of("std::convert::From"):
